@@ -373,8 +373,13 @@ class StmtMixin:
     def havoc_loop_state(self, st: State, body, extra_names=(), prelude=None) -> State:
         """Cut point: forget everything the body may change.  The set of heap components the body writes is
         found by a dry run of the body from a fully havocked state (components whose term is untouched on
-        every path are not written)."""
-        comps = self.written_comps(st, body, extra_names, prelude)
+        every path are not written).  The open atomic segment is carried across the cut: components it has
+        not written keep `seg == heap`; for the others the guarantee clauses are proved at loop entry / at the
+        end of every iteration (see check_open_segment) and assumed at the loop head."""
+        comps, open_changed = self.written_comps(st, body, extra_names, prelude)
+        for c in self.comps:
+            if not (st.heap[c] is st.seg.get(c) or st.heap[c].eq(st.seg[c])):
+                open_changed.add(c)
         h = st.copy()
         for n in self.assigned_names(body) | set(extra_names):
             if n in h.env:
@@ -388,9 +393,68 @@ class StmtMixin:
         for n in self.assigned_names(body):
             if n in self.cellvars and n in h.env and "fld:cell:" + n not in comps:
                 h.set_fld("cell:" + n, h.envref, h.env[n].t)
+        if self.spec is not None and hasattr(self.spec, "havoc_ghost"):
+            h.ghost = dict(h.ghost)
+            self.spec.havoc_ghost(self, h)
+        if self.spec is not None and self.spec.check_guarantee:
+            open_changed -= {"w_dict", "mycalls"}
+            h.loopvars = dict(h.loopvars)
+            h.loopvars["open_changed"] = set(open_changed)
+            h.loopvars["body_has_havoc"] = bool(getattr(self, "_last_dry_had_havoc", False))
+            if h.loopvars["body_has_havoc"]:
+                # the body lets foreign code run: the heap at the loop head is unknown except for the contract's loop
+                # invariant and the class invariants (proved at loop entry and at the end of every iteration)
+                for entry in self.reg.invariants:
+                    self.assume_invariant(h, entry, HeapView(h.heap))
+                # construction-time fields are immutable across everything that happened since loop entry
+                self.assume_immutables(h, st, h.heap)
+                old_, new_ = HeapView(st.heap), HeapView(h.heap)
+                for entry in self.reg.rely_clauses(self):
+                    if entry[0].startswith(("immutable:", "set-monotone:")):
+                        h.heavy.append(entry[1](old_, new_))
+            seg = {}
+            for c in self.comps:
+                seg[c] = fresh("sg." + c, self.comps[c]) if c in open_changed else h.heap[c]
+            h.seg = seg
+            if open_changed:
+                old, new = HeapView(h.seg), HeapView(h.heap)
+                for entry in self.reg.guarantees:
+                    fp = entry[2] if len(entry) > 2 else None
+                    if fp is None or (set(fp) & open_changed):
+                        h.assume(entry[1](old, new))
+                h.assume(new.alloc >= old.alloc)
         return h
 
-    def written_comps(self, st: State, body, extra_names, prelude) -> set[str]:
+    def check_open_segment(self, st: State, open_changed, anchor, kind, body_has_havoc=False):
+        """the part of the current atomic segment executed so far is within the guarantee (loop cut)"""
+        if self.spec is None or not self.spec.check_guarantee:
+            return
+        if body_has_havoc:
+            changed_ = {c for c in self.comps if not (st.heap[c] is st.seg.get(c) or st.heap[c].eq(st.seg[c]))}
+            if changed_:
+                st.name_heap()
+                new_ = HeapView(st.heap)
+                for entry in self.reg.invariants:
+                    fp = entry[2] if len(entry) > 2 else None
+                    if entry[0] in self.spec.suspended_invariants or (fp is not None and not (set(fp) & changed_)):
+                        continue
+                    self.oblige(st, kind, "class-invariant:" + entry[0], entry[1](new_), anchor)
+        if not open_changed:
+            return
+        changed = {c for c in self.comps if not (st.heap[c] is st.seg.get(c) or st.heap[c].eq(st.seg[c]))} - {"w_dict", "mycalls"}
+        if not changed:
+            return
+        extra = changed - set(open_changed)
+        if extra and not getattr(self, "_dry", 0):
+            raise Untranslatable(f"loop cut: open segment writes {sorted(extra)[:4]} not seen by the dry run")
+        st.name_heap()
+        old, new = HeapView(st.seg), HeapView(st.heap)
+        for entry in self.reg.guarantees:
+            fp = entry[2] if len(entry) > 2 else None
+            if fp is None or (set(fp) & changed):
+                self.oblige(st, kind, "open-segment:" + entry[0], entry[1](old, new), anchor)
+
+    def written_comps(self, st: State, body, extra_names, prelude):
         saved = (len(self.obls), dict(self.call_ord), dict(self.dropped), self.nodes_translated, len(self.notes))
         probe = st.copy()
         for n in self.assigned_names(body) | set(extra_names):
@@ -400,6 +464,9 @@ class StmtMixin:
         for c in self.comps:
             probe.heap[c] = start[c] = fresh("dry." + c, self.comps[c])
         probe.seg = dict(probe.heap)
+        if self.spec is not None and hasattr(self.spec, "havoc_ghost"):
+            probe.ghost = dict(probe.ghost)
+            self.spec.havoc_ghost(self, probe)
         self._dry = getattr(self, "_dry", 0) + 1
         try:
             outs = prelude(probe) if prelude else [Outcome("normal", probe)]
@@ -414,13 +481,17 @@ class StmtMixin:
             self.nodes_translated = saved[3]
             del self.notes[saved[4]:]
         comps = set()
+        open_changed = set()
+        self._last_dry_had_havoc = any(o.st.seg is not probe.seg for o in res)
         for o in res:
             if o.kind not in ("normal", "continue"):
                 continue          # paths that leave the loop carry nothing into the next iteration
             for c in self.comps:
                 if not o.st.heap[c].eq(start[c]):
                     comps.add(c)
-        return comps
+                if not (o.st.heap[c] is o.st.seg.get(c) or o.st.heap[c].eq(o.st.seg[c])):
+                    open_changed.add(c)
+        return comps, open_changed
 
     PURE_CALLS = {"isinstance", "len", "cast", "callable", "isclass", "get_origin", "isawaitable", "iscoroutine",
                   "type", "id", "qualified_name", "callable_name", "format_component_name"}
@@ -494,6 +565,8 @@ class StmtMixin:
         for (name, f) in inv(self.loop_ctx(entry, entry, {})):
             self.oblige(entry, "inv-init", name, f, anchor)
         h = self.havoc_loop_state(entry, s.body)
+        oc = h.loopvars.get("open_changed", set())
+        self.check_open_segment(entry, oc, anchor, "inv-init", h.loopvars.get("body_has_havoc", False))
         h.tags.append(anchor)
         for (name, f) in inv(self.loop_ctx(entry, h, {})):
             h.assume(f)
@@ -510,6 +583,7 @@ class StmtMixin:
                     if o.kind in ("normal", "continue"):
                         for (name, f) in inv(self.loop_ctx(entry, o.st, {})):
                             self.oblige(o.st, "inv-keep", name, f, anchor)
+                        self.check_open_segment(o.st, oc, anchor, "inv-keep", h.loopvars.get("body_has_havoc", False))
                     elif o.kind == "break":
                         out.append(Outcome("normal", o.st))
                     else:
@@ -585,6 +659,8 @@ class StmtMixin:
                 it = SV(Val.pair(vint(fresh("dry_i", I)), it.t), PAIR(TINT, ety))
             return self.assign(s.target, it, p)
         h = self.havoc_loop_state(entry, s.body, extra_names=self.target_names(s.target), prelude=prelude)
+        oc = h.loopvars.get("open_changed", set())
+        self.check_open_segment(entry, oc, anchor, "inv-init", h.loopvars.get("body_has_havoc", False))
         h.tags.append(anchor)
         i = fresh("i", I)
         ln = (h.l_len(a) if is_list else h.t_len(a))
@@ -613,6 +689,7 @@ class StmtMixin:
                     if o.kind in ("normal", "continue"):
                         for (name, f) in inv(self.loop_ctx(entry, o.st, {"i": i + 1, "src": src})):
                             self.oblige(o.st, "inv-keep", name, f, anchor)
+                        self.check_open_segment(o.st, oc, anchor, "inv-keep", h.loopvars.get("body_has_havoc", False))
                         if is_list:
                             self.oblige(o.st, "inv-keep", "iterated-list-not-resized", o.st.l_len(a) == ln, anchor)
                     elif o.kind == "break":
@@ -639,6 +716,8 @@ class StmtMixin:
             it = SV(Val.pair(kk.t, vv.t), PAIR(kty, vty)) if mode == "dict_items" else (vv if mode == "dict_values" else kk)
             return self.assign(s.target, it, p)
         h = self.havoc_loop_state(entry, s.body, extra_names=self.target_names(s.target), prelude=prelude)
+        oc = h.loopvars.get("open_changed", set())
+        self.check_open_segment(entry, oc, anchor, "inv-init", h.loopvars.get("body_has_havoc", False))
         h.tags.append(anchor)
         P = fresh("P", KB)
         kq = z3.Const("k!P", Val)
@@ -669,6 +748,7 @@ class StmtMixin:
                     if o.kind in ("normal", "continue"):
                         for (name, f) in inv(self.loop_ctx(entry, o.st, {"P": P2, "src": src})):
                             self.oblige(o.st, "inv-keep", name, f, anchor)
+                        self.check_open_segment(o.st, oc, anchor, "inv-keep", h.loopvars.get("body_has_havoc", False))
                         self.oblige(o.st, "inv-keep", "iterated-dict-keys-unchanged",
                                     z3.Select(o.st.heap["d_has"], a) == has_arr, anchor)
                     elif o.kind == "break":
